@@ -46,6 +46,34 @@ pub open spec fn zfr_take<'a>(z: ZipFileReader<'a>) -> Take<DynRead<'a>> {
         ZipFileReader::NoReader => arbitrary(),
     }
 }
+// the crypto layer under an installed decoding reader (None for the raw reader / no reader)
+pub open spec fn zfr_crypto<'a>(z: ZipFileReader<'a>) -> Option<CryptoReader<'a>> {
+    match z {
+        ZipFileReader::Stored(c) => Some(c.inner),
+        ZipFileReader::Deflated(c) => Some(c.inner.g_inner()),
+        ZipFileReader::Bzip2(c) => Some(c.inner.g_inner()),
+        ZipFileReader::Zstd(c) => Some(c.inner.g_inner().g_inner()),
+        _ => None,
+    }
+}
+// C16: "this entry may report end-of-file": an AES entry only once its authentication code has been read and compared
+pub open spec fn aes_authenticated<'a>(c: CryptoReader<'a>) -> bool {
+    c matches CryptoReader::Aes { reader: a, .. } ==> a.g_finalized()
+}
+// the same crypto reader up to what reading does to it (variant kept; for an AES reader: mode, password kept, authentication never undone)
+pub open spec fn crypto_kept<'a>(a: CryptoReader<'a>, b: CryptoReader<'a>) -> bool {
+    match a {
+        CryptoReader::Aes { reader: a0, vendor_version: v0 } => b matches CryptoReader::Aes { reader: a1, vendor_version: v1 } && v1 == v0
+            && a1.g_mode() == a0.g_mode() && a1.g_password() == a0.g_password() && (a0.g_finalized() ==> a1.g_finalized()),
+        CryptoReader::Plaintext(_) => b is Plaintext,
+        CryptoReader::ZipCrypto(_) => b is ZipCrypto,
+    }
+}
+// which decoder stack is installed
+pub open spec fn zfr_kind<'a>(z: ZipFileReader<'a>) -> int {
+    match z { ZipFileReader::NoReader => 0, ZipFileReader::Raw(_) => 1, ZipFileReader::Stored(_) => 2, ZipFileReader::Deflated(_) => 3,
+        ZipFileReader::Bzip2(_) => 4, ZipFileReader::Zstd(_) => 5 }
+}
 // the undecoded view of an open entry: under the installed reader, or (none installed yet) under the crypto reader
 pub open spec fn zf_raw_take<'a>(z: ZipFile<'a>) -> Take<DynRead<'a>> {
     match z.reader {
